@@ -247,3 +247,50 @@ def inplace_on_inherited_dtype(func_node):
                 if floaty:
                     out.append((st, b_.id, "true division" if isinstance(st.op, ast.Div) else "floating-point operand"))
     return out, params
+
+
+# ---------------------------------------------------------------------------------------------------------------------
+# accumulators that outlive the call
+
+_FRESH = ("zeros", "zeros_like", "empty", "empty_like", "ones", "array", "copy", "full")
+
+
+def persistent_accumulators(func_node):
+    """In-place accumulations (`x[...] += e`, `x += e` on an array) whose target is storage that outlives the call: an
+    attribute of self, or a local bound to one (`II = self.Iterm`), without a fresh allocation of that attribute earlier in
+    the same function.  Returns [(AugAssign node, text of the storage)].  Locals bound to a new array in this call
+    (numpy.zeros(...), a copy, an arithmetic expression) are fresh."""
+    out = []
+    fresh_attrs = set()           # self.X = numpy.zeros(...) seen so far (statement order)
+    local = {}                    # name -> 'fresh' | 'self.X'
+    stmts = sorted((x for x in walk_no_nested(func_node) if isinstance(x, (ast.Assign, ast.AugAssign))),
+                   key=lambda x: (x.lineno, x.col_offset))
+    for st in stmts:
+        if isinstance(st, ast.Assign):
+            v = st.value
+            is_fresh = (isinstance(v, ast.Call) and (call_name(v) or "").split(".")[-1] in _FRESH) or isinstance(v, (ast.BinOp, ast.Constant))
+            for t_ in st.targets:
+                if isinstance(t_, ast.Name):
+                    if isinstance(v, ast.Attribute) and norm(v.value) == "self":
+                        local[t_.id] = norm(v)
+                    elif isinstance(v, ast.Name) and v.id in local:
+                        local[t_.id] = local[v.id]
+                    else:
+                        local[t_.id] = "fresh"
+                elif isinstance(t_, ast.Attribute) and norm(t_.value) == "self":
+                    if is_fresh or (isinstance(v, ast.Name) and local.get(v.id) == "fresh"):
+                        fresh_attrs.add(norm(t_))
+            continue
+        if not isinstance(st.op, (ast.Add, ast.Sub)):
+            continue
+        b_ = st.target
+        while isinstance(b_, ast.Subscript):
+            b_ = b_.value
+        store = None
+        if isinstance(b_, ast.Attribute) and norm(b_.value) == "self":
+            store = norm(b_)
+        elif isinstance(b_, ast.Name) and local.get(b_.id, "fresh") != "fresh" and b_ is not st.target:
+            store = local[b_.id]
+        if store is not None and store not in fresh_attrs:
+            out.append((st, store))
+    return out
